@@ -341,6 +341,13 @@ func (e *Engine) specCall(env *SpecEnv, x *SExpr) Value {
 		need(1)
 		i := e.evalSpecTerm(env, args[0])
 		return Select(env.st.callsR[int(name[3]-'0')], i)
+	case "samekind":
+		// samekind(a, b): two trace events are calls of the same method / the same
+		// engine-defined event (whatever their arguments)
+		need(2)
+		a, b := e.evalSpecTerm(env, args[0]), e.evalSpecTerm(env, args[1])
+		kind := e.ctx.Func("evkind", []*Sort{SEvent}, SInt)
+		return Eq(T("("+kind+" "+a.S+")", SInt), T("("+kind+" "+b.S+")", SInt))
 	case "evn":
 		// evn("name", args...): engine-defined events (chan.close, go:..., conn.Write)
 		if len(args) < 1 || args[0].Op != "str" {
